@@ -325,6 +325,8 @@ type httpBehaviour struct {
 	gate    chan struct{} // barrier: wait until closed
 	handler func(req *http.Request) (*http.Response, error)
 	bodyErr error // body that fails while being read
+	// response header fields (what HTTP itself says about the reply: freshness, type, retry): none of it is evidence
+	header http.Header
 }
 
 type reqLog struct {
@@ -434,8 +436,12 @@ func (t *scriptedTransport) RoundTrip(req *http.Request) (*http.Response, error)
 	case "unknown":
 		cl = -1
 	}
+	hdr := http.Header{}
+	for k, v := range b.header {
+		hdr[k] = append([]string{}, v...)
+	}
 	return &http.Response{StatusCode: st, Status: fmt.Sprintf("%d %s", st, http.StatusText(st)), Proto: "HTTP/1.1", ProtoMajor: 1, ProtoMinor: 1,
-		Body: body, ContentLength: cl, Header: http.Header{}, Request: req}, nil
+		Body: body, ContentLength: cl, Header: hdr, Request: req}, nil
 }
 
 // ---------------------------------------------------------------------------------------------
